@@ -1,6 +1,6 @@
 (* C05 — Reduce preserves the language and never grows the automaton. Statements only. *)
 From Coq Require Import List NArith Bool Arith.
-From V Require Import Sem Prod Incl TrimDefs TrimProofs Lang BinopDefs ReduceDefs ReduceProofs ReduceModel.
+From V Require Import Sem Prod Incl TrimDefs TrimProofs Lang BinopDefs ReduceDefs ReduceProofs ReduceModel ReduceStale.
 
 (* quotient by any representative map that stays inside a downward simulation in both directions, then pruning:
    same language (for every automaton, every such relation, every such choice of representatives) *)
@@ -32,6 +32,12 @@ Proof. exact reduce_model_lang. Qed.
 Theorem C05_reduce_model_passes_gate : forall A, reduce_gate A (reduce_model A) = true.
 Proof. exact reduce_model_gate. Qed.
 
+(* a relation computed for the automaton before an in-place extension (no new state) is not valid afterwards: a Reduce that re-uses it
+   changes the language; with the relation of the automaton actually reduced the language is kept *)
+Theorem C05_stale_relation_refuted : (forall q, In q (states stA') <-> In q (states stA)) /\ canon_rep stA 10%N = canon_rep stA 20%N /\
+  ~ (forall t, accepts (reduce_with (canon_rep stA) stA') t <-> accepts stA' t).
+Proof. exact reduce_stale_relation_refuted. Qed.
+
 Print Assumptions C05_reduce_lang.
 Print Assumptions C05_computed_relation_is_simulation.
 Print Assumptions C05_canonical_representatives_valid.
@@ -42,3 +48,4 @@ Print Assumptions C05_reduce_rules_le.
 Print Assumptions C05_reduce_onto.
 Print Assumptions C05_sim_reach.
 Print Assumptions C05_gate.
+Print Assumptions C05_stale_relation_refuted.
